@@ -91,3 +91,28 @@ void h_SkipString_exact(void) {
   CANARY();
 }
 #endif
+
+#ifdef UNIT_GetEscaped
+/* GetEscaped<N> against a scalar reference (RFC 8259 section 7: a backslash escapes the next character; an escaped backslash
+ * escapes nothing), for every backslash mask and carry: pins the odd-bits trick and the block-carry bit (N-1) for N = 16, 32, 64 */
+#ifndef GE_N
+#define GE_N 64
+#endif
+uint64_t in_bs, in_prev;
+void h_GetEscaped(void) {
+  uint64_t prev, bs; __CPROVER_assume(prev <= 1); in_bs = bs; in_prev = prev;
+#if GE_N < 64
+  __CPROVER_assume((bs >> GE_N) == 0);                   /* callers pass an N-bit mask */
+#endif
+  uint64_t want = 0, e = prev;
+  for (int i = 0; i < GE_N; i++) { uint64_t esc = e; want |= esc << i; e = ((bs >> i) & 1) & (esc ^ 1); }
+  uint64_t p = prev;
+  uint64_t r = GETESCAPED(GE_N)(p, bs);
+#if GE_N < 64
+  r &= (((uint64_t)1 << GE_N) - 1);                      /* bits at and above N are not used by any caller */
+#endif
+  VASSERT(r == want, "C11.getescaped.mask: bit i is set exactly when character i is escaped by an odd run of backslashes (carry-in included)");
+  VASSERT(p == e, "C11.getescaped.carry: the carry-out says whether the block ends in an unescaped backslash");
+  CANARY();
+}
+#endif
